@@ -201,6 +201,9 @@ ObsCrash(o, c) ==
 ObsRestart(o) ==
     [o EXCEPT !.rest = <<>>, !.chain = <<>>, !.lastGood = None, !.inBatch = FALSE]
 
+\* the channel gives up on the remainder (retries exhausted): the chain has failed for good
+ObsGiveUp(o) == [o EXCEPT !.rest = <<>>, !.chain = <<>>]
+
 -----------------------------------------------------------------------------
 (* The clauses.  C10: Durable RecordsWellFormed RetryIsWhole AckOnlyAfterSync NoGarbage.    *)
 (* C11: OneFilePerBatch RollOnlyWhen MustRoll NameIs NewestFirst Retained OldestFirst       *)
